@@ -484,7 +484,7 @@ func AddLocals(t *rapid.T, m *Model, o Opts) {
 		s := &m.Sources[i]
 		p := fmt.Sprintf("sources[%d].", i)
 		listAttr(p+"fields", s.Fields)
-		if s.Variables != nil {
+		if s.Variables != nil && len(s.TypedKeys) == 0 {
 			mapAttr(p+"variables", s.Variables)
 			s.RandKeys = nil
 			for _, e := range *s.Variables {
